@@ -28,7 +28,7 @@ CHECKS = {
             "guard assertions + $disp ghost count in lifecycle contracts; arithmetic contracts on config"),
     "C03": ("Safety half only: every accept path signals the dispatcher after its bookkeeping (signal-after-bookkeeping asserts), "
             "every pool goroutine iteration frees its node and signals, the dispatcher sleeps only when no job is dispatchable "
-            "(sleep-only-when-idle assert), Resume/start re-arm the dispatcher. Liveness under fair scheduling (the property proper) "
+            "(sleep-only-when-idle assert), Resume/start re-arm the dispatcher, releaseWaiters uses Broadcast (Signal is a different ghost event). Liveness under fair scheduling (the property proper) "
             "is outside the reach of function contracts; claimed as the wake-up discipline obligations, not as termination.",
             "assert-at-anchor obligations on signalling order; no fairness/liveness reasoning"),
     "C04": ("Full functional proof, unbounded: Queue is a FIFO sequence ($lg/$base ghost log) across chunk boundaries and purge; "
@@ -38,11 +38,13 @@ CHECKS = {
             "representation invariants RI_Queue / RI_PQ + heap lemmas; std container/heap bodies inlined with caller-side invariants"),
     "C05": ("Per-function proof that job.Close/ errorJob / resultJob Close complete the handle's wait group/response exactly once "
             "on the successful path and not at all when refused, that the pool goroutine body sends the outcome before Close, that group "
-            "jobs count down one per item and close the shared response when the count reaches zero (incl. the empty batch, finding F4, fixed).",
+            "jobs count down one per item and close the shared response when the count reaches zero (incl. the empty batch, finding F4, fixed). "
+            "B2-lite: WgCounter.Done performs its wg.Done() whatever concurrent finishers do between its Load and its update (b2-done).",
             "contracts over WgCounter/Response ghost ($wgdone, channel counters)"),
     "C06": ("Per-function proof of the barrier bodies: WaitUntilFinished returns only on a state with no pending and no processing job "
             "(loop invariant + rely on the condition variable), PauseAndWait/WaitAndStop compose it with the status change, Stop leaves "
-            "curProcessing == 0 and an empty pool; releaseWaiters broadcasts after the counters are final.",
+            "curProcessing == 0 and an empty pool; releaseWaiters broadcasts after the counters are final; processNextJob releases the waiters "
+            "whenever it consumes an entry without dispatching it (wake-consumed; finding F5, fixed).",
             "loop invariants over cond-var wait with rely clauses"),
     "C07": ("Per-function proof that each job constructor allocates a fresh response channel / wait counter, that the worker "
             "closures (NewWorker$1 etc.) send exactly the value/err of the user function call on that job's own handle, and that WithSafe "
@@ -51,14 +53,14 @@ CHECKS = {
             "freshness ($fresh) postconditions + panic-path contracts"),
     "C08": ("Per-function proof that AddAll creates the group with buffer == number of accepted items, each item job sends exactly one "
             "result, the response channel is closed exactly once when the pending count reaches zero (chan obligations: no send on closed, "
-            "no double close), including the empty batch.",
+            "no double close), including the empty batch; every item gets a job configuration of its own (one id-generator call per item, own-config).",
             "channel ghost state ($open/$sent/$cap) obligations at every send/close"),
     "C09": ("Per-function proof that the dispatcher loop dispatches only when status == running (guard assert in goEventLoop$1 / "
             "processNextJob precondition), that Pause/Stop/Resume/Restart change only status + dispatcher ghost and leave queues untouched "
             "(frame conditions), and that Resume re-arms exactly one dispatcher.",
             "frame obligations + status guards"),
     "C10": ("Per-function proof that Close on a queued job marks it closed so processNextJob skips it (never handed to a pool node), "
-            "Purge empties the abstract queue and resets the counters, queue Close is idempotent on channel ghost state (no double close), "
+            "Purge closes every job returned by Values() and Queue.Values/PriorityQueue.Values return exactly the pending items (loop-invariant proofs over the chunk chain / heap array); Purge empties the abstract queue and resets the counters, queue Close is idempotent on channel ghost state (no double close), "
             "no nil/bounds/closed-channel panic on any path of those functions.",
             "safety obligations (nil, bounds, chan) + abstract-view postconditions"),
     "C11": ("Per-function proof that ack is called only from job.Close after processing (initPoolNode$1 order asserts) or for a job "
@@ -67,11 +69,13 @@ CHECKS = {
             "order assertions at anchors around IAcknowledgeable.Acknowledge calls"),
     "C12": ("Per-function proof that Json/parseToJob round-trip ID and payload ($jsonrt axiom of encoding/json is trusted), that "
             "persistent/distributed Add pass exactly the bytes of Json() with the configured ID, and that processNextJob on an undecodable "
-            "entry reports an error, acknowledges nothing and dispatches nothing (isolation).",
+            "entry reports an error, acknowledges nothing and dispatches nothing (isolation); json.Unmarshal targets must be zero values allocated by the decoding "
+            "function itself (json-target-fresh: Unmarshal merges into a reused target).",
             "contracts with trusted encoding/json round-trip axiom"),
     "C14": ("Per-function proof of every lifecycle entry point against the documented state machine: status pre/post pairs for "
             "start/Pause/PauseAndWait/Resume/Stop/WaitAndStop/Restart and the binders (error value and no state change on the refused "
-            "transitions; findings F2, F3 fixed), context listener stops only its own generation. Single-call contracts: every sequence "
+            "transitions; findings F2, F3 fixed), context listener stops the worker for its own generation of the context whatever the status and never for a replaced one; "
+            "Restart cancels and replaces the context inside one write-locked section (cancel-locked, rearm-atomic). Single-call contracts: every sequence "
             "follows by composition of contracts. B2-lite: Stop/Restart are additionally proved to end in Stopped/Running when worker.status is changed arbitrarily "
             "by other goroutines during their blocking waits (obligations b2-*); other concurrent lifecycle interleavings are not modelled.",
             "pre/post state-machine contracts on all lifecycle functions"),
